@@ -8,5 +8,7 @@ CONSTANTS
   MaxTypes = 2
   StropMode = "none"
   GenNsChoices = {TRUE}
+  Spellings = {"rel"}
+  CanonNs = FALSE
 INVARIANT Emit
 CHECK_DEADLOCK FALSE
